@@ -305,6 +305,7 @@ LEVEL_TEXT = ("For 320 / 5,000 drawn (generated graph, walk) pairs every admissi
               "/ 20,000 drawn multi-edit sets obeying the spacing rule; detection is judged against an independent "
               "walk predicate and recovery as membership of the original walk, with and without its check, with "
               "indel handling on and (substitutions) off. Class floors cover every observed length, every edit kind "
-              "and the maximal detection latency k-1.")
+              "and the maximal detection latency k-1."
+              ' The saturation step (path_matching) is also checked on its own on arbitrary arc subsets: 6,000 / 80,000 (graph, vertex, string, position) cases against the exact set of single edits after which the rest of the string follows the graph.')
 LEVEL_NOTE = ("Trusted: walk predicate and VT formula in pbt/oracles.py; generation is taken from the library and "
               "cross-checked with the closure oracle (differing cases are excluded here and reported by C03).")
